@@ -172,5 +172,5 @@ def _worker(ctx, arg):
 
 
 def run(ctx):
-    per = 60 if ctx.tier == "quick" else 1000
+    per = 250 if ctx.tier == "quick" else 2500
     ctx.parallel(_worker, [(k, per) for k in range(core.NPROC)])
